@@ -14,6 +14,9 @@
 #if defined(__has_include)
 #if __has_include(<valgrind/memcheck.h>)
 #include <sys/mman.h>
+#include <fenv.h>
+#include <locale.h>
+#include <xmmintrin.h>
 #include <time.h>
 #include <valgrind/memcheck.h>
 #define VP_HAVE_VALGRIND 1
@@ -246,7 +249,28 @@ inline void sig_cb(int sig) {
     }
     dump_current_case();
     if (sig == SIGALRM) { static const char m[] = "[harness] ALARM: case did not terminate\n"; (void)!write(2, m, sizeof m - 1); _exit(4); }
+    { char m[64]; int n = snprintf(m, sizeof m, "[harness] FATAL-SIGNAL %d (%s)\n", sig, sig == SIGFPE ? "FPE" : sig == SIGSEGV ? "SEGV" : sig == SIGBUS ? "BUS" : sig == SIGILL ? "ILL" : "ABRT"); (void)!write(2, m, (size_t)n); }
     _exit(5);
+}
+// ambient state of the calling process that the library has no business depending on (beyond what IEEE / ISO C say), selected by the
+// driver through the environment so that one binary serves several targets:
+//   VP_FPENV: "ftz" flush-to-zero on (SSE), "trap" invalid/divide-by-zero/overflow exceptions unmasked (a NaN in a signalling comparison
+//             then is a SIGFPE), "up"/"down"/"zero" rounding direction;   VP_LOCALE: setlocale(LC_CTYPE, that) (LOCPATH set by the driver)
+inline void apply_ambient() {
+    if (const char *e = getenv("VP_FPENV")) {
+        std::string v = e;
+        if (v.find("ftz") != std::string::npos) _mm_setcsr(_mm_getcsr() | 0x8000u);
+        if (v.find("up") != std::string::npos) fesetround(FE_UPWARD);
+        if (v.find("down") != std::string::npos) fesetround(FE_DOWNWARD);
+        if (v.find("zero") != std::string::npos) fesetround(FE_TOWARDZERO);
+        if (v.find("trap") != std::string::npos) feenableexcept(FE_INVALID | FE_DIVBYZERO | FE_OVERFLOW);
+        stats().notes["fpenv"] = "floating-point environment of the process for this target: " + v;
+    }
+    if (const char *l = getenv("VP_LOCALE")) {
+        const char *r = setlocale(LC_CTYPE, l);
+        stats().notes["locale"] = std::string("LC_CTYPE locale of the process for this target: ") + (r ? r : "(could not be set - target ran in the C locale)");
+        if (!r) { fprintf(stderr, "[harness] locale %s not available\n", l); exit(9); }
+    }
 }
 
 // ---------------------------------------------------------------- result file
@@ -340,7 +364,9 @@ inline int main_(int argc, char **argv, const Harness &h) {
         else { fprintf(stderr, "unknown argument %s\n", k.c_str()); return 9; }
     }
     if (__sanitizer_set_death_callback) __sanitizer_set_death_callback(death_cb);
+    else for (int sg : {SIGSEGV, SIGBUS, SIGFPE, SIGILL, SIGABRT}) signal(sg, sig_cb);   // unsanitized builds: the case in flight is written out all the same
     signal(SIGALRM, sig_cb);
+    apply_ambient();
     if (!a.replay.empty()) {
         std::string text = strip_comments(read_file(a.replay));
         alarm(60);
@@ -370,6 +396,18 @@ inline int main_(int argc, char **argv, const Harness &h) {
     if (vg().on) { stats().exhaustive = false; stats().notes["valgrind"] = "this target ran the unsanitized build under memcheck (--partial-loads-ok=no)"; }
     write_result();
     return 0;
+}
+
+// compile-time probes (shims/pp_probes.c): public macros evaluated inside #if, as array sizes, enumeration constants and static initialisers
+typedef int (*PpProbe)(void (*)(const char *));
+inline std::vector<std::string> &pp_bad() { static std::vector<std::string> v; return v; }
+inline void pp_phase(PpProbe probe, const char *group) {
+    std::string rep = std::string("pp ") + group + "\n";
+    CaseScope scope([rep] { return rep; });
+    pp_bad().clear();
+    probe([](const char *w) { pp_bad().push_back(w); });
+    count(); cls("public-macros-in-preprocessor-conditionals-and-constant-expressions"); nontrivial(fnv(rep));
+    for (auto &b : pp_bad()) { std::string k = b.substr(0, b.find_first_of(" (")); fail("macro-at-translation-time:" + k, b + " (evaluated at translation time in a C caller; as a run-time expression the macro may still be right)", rep); }
 }
 
 // VP_MAIN: the harness's main(). With VP_PREMAIN=1 in the environment the whole run happens BEFORE main(): from a dynamic initialiser at the
